@@ -459,6 +459,17 @@ def solve_pareto_front(
         results.append(_int_model_to_dict(m))
         if max_solutions is not None and len(results) >= max_solutions:
             break
+        # Exclude this point and everything it dominates. z3 enumerates a front only
+        # for several objectives; with a single one it would return the same optimum
+        # on every check() and this loop would not terminate.
+        opt.add(
+            z3.Or(
+                [
+                    z3.Int(vname) < m.eval(z3.Int(vname), model_completion=True)
+                    for vname in minimize_vars
+                ]
+            )
+        )
 
     return results
 
